@@ -23,7 +23,7 @@ def memcheck_part(V, tier):
         if kind == "codec":
             # other cases than the ASan run: the worker index is shifted
             return job, vf.memcheck(cb, ["c02", codecdrv.SEEDS, vf.SEED, 100 + k, per], timeout=14000)
-        return job, vf.memcheck(fb, [], stdin=json.dumps({"n": 1, "seed": vf.SEED * 77 + k, "ns": nsm, "skip": 0}) + "\n", timeout=14000)
+        return job, vf.memcheck(fb, [], stdin=json.dumps({"n": 1, "seed": vf.SEED * 77 + k, "ns": nsm, "skip": 0, "comboRounds": 6 if tier == "quick" else 60}) + "\n", timeout=14000)
     for (kind, k), (r, errors) in vf.pmap(run, jobs):
         if r["timed_out"]:
             V.inconc("memcheck %s worker %s timed out" % (kind, k))
